@@ -95,9 +95,9 @@ func runCLI(id int, in cliIn, r *hlib.SplitMix64, ifa *net.Interface, inj inject
 	if in.Subnet != "" {
 		c.Subnet, c.Ports = in.Subnet, in.PortsL
 	} else {
-		// a /29 inside the interface's /24, away from the interface address
+		// a /28 inside the interface's /24, away from the interface address
 		base := myNet.IP.To4()
-		c.Subnet = fmt.Sprintf("%d.%d.%d.%d/29", base[0], base[1], base[2], 16+8*r.Intn(24))
+		c.Subnet = fmt.Sprintf("%d.%d.%d.%d/28", base[0], base[1], base[2], 16+16*r.Intn(12))
 		if in.Ports {
 			for j := 1 + r.Intn(3); j > 0; j-- {
 				a := 1 + r.Intn(65000)
@@ -186,7 +186,7 @@ func runCLI(id int, in cliIn, r *hlib.SplitMix64, ifa *net.Interface, inj inject
 	var between []rec
 	finished := false
 	waitFor := func(frame []byte, ip string, collect bool) bool {
-		deadline := time.Now().Add(5 * time.Second)
+		deadline := time.Now().Add(20 * time.Second)
 		for time.Now().Before(deadline) {
 			if err := inj.WritePacketData(frame); err != nil {
 				c.Err = "inject: " + err.Error()
@@ -215,9 +215,20 @@ func runCLI(id int, in cliIn, r *hlib.SplitMix64, ifa *net.Interface, inj inject
 		return false
 	}
 	if waitFor(sa, ipA, false) {
+		seenKey := map[string]bool{}
 		for i, f := range frames {
 			o := frameObs{Frame: hex.EncodeToString(f), Class: classes[i]}
-			ip, _ := frameKeyLink(in.Filter, in.Tun, f)
+			ip, port := frameKeyLink(in.Filter, in.Tun, f)
+			// records are attributed to frames by source address (and port): every injected frame gets its own
+			key := fmt.Sprint(ip, "/", port)
+			if y, ok := frameRec(in.Filter, in.Tun, f); ok {
+				key = fmt.Sprint(y.ip, "/", y.port, "/", y.ttl, "/", y.t, "/", y.c, "/", y.mac)
+			}
+			if ip != "" && seenKey[key] {
+				c.Frames = append(c.Frames, o)
+				continue
+			}
+			seenKey[key] = true
 			minLen := 14
 			if in.Tun {
 				minLen = 20
@@ -233,19 +244,21 @@ func runCLI(id int, in cliIn, r *hlib.SplitMix64, ifa *net.Interface, inj inject
 	} else if c.Err == "" {
 		c.Err = "sentinel-not-reported"
 	}
-	// stop the command: its RunE listens for os.Interrupt
+	// stop the command: its RunE listens for os.Interrupt.  The receiver sits in a poll without timeout, it
+	// notices the cancellation only when a frame passes the filter: keep the sentinel coming.
 	if !finished {
-		stop := time.After(8 * time.Second)
+		stop := time.After(30 * time.Second)
 	S:
 		for {
 			_ = syscall.Kill(os.Getpid(), syscall.SIGINT)
+			_ = inj.WritePacketData(sa)
 			select {
 			case <-done:
 				break S
 			case <-stop:
 				c.Err += " command-did-not-stop"
 				break S
-			case <-time.After(50 * time.Millisecond):
+			case <-time.After(20 * time.Millisecond):
 			}
 		}
 	}
@@ -274,7 +287,18 @@ func runCLIStage(file string, w *hlib.Out, seed int64, ifaName, ifbName, tunName
 	r := hlib.NewRand(seed)
 	var eth *afp.TPacket
 	var tun *tunDev
+	stuck := false
+	put := func(c caseOut) {
+		if strings.Contains(c.Err, "did-not-stop") {
+			stuck = true // it still owns stdout and the interface: nothing after it can be observed reliably
+		}
+		w.Put(c)
+	}
 	for i, in := range ins {
+		if stuck {
+			w.Put(caseOut{ID: i, E2E: true, Cmd: in.Name, W: -1, VPN: in.Tun, Err: "skip: an earlier command line did not stop"})
+			continue
+		}
 		if in.Tun {
 			if tun == nil {
 				if tun, err = openTun(tunName); err != nil {
@@ -288,7 +312,7 @@ func runCLIStage(file string, w *hlib.Out, seed int64, ifaName, ifbName, tunName
 				w.Put(caseOut{ID: i, E2E: true, Cmd: in.Name, W: -1, Err: "skip: tun: " + err.Error()})
 				continue
 			}
-			w.Put(runCLI(i, in, r, ifi, tun, tmp))
+			put(runCLI(i, in, r, ifi, tun, tmp))
 			continue
 		}
 		if eth == nil {
@@ -300,6 +324,6 @@ func runCLIStage(file string, w *hlib.Out, seed int64, ifaName, ifbName, tunName
 		if err != nil {
 			panic(err)
 		}
-		w.Put(runCLI(i, in, r, ifi, eth, tmp))
+		put(runCLI(i, in, r, ifi, eth, tmp))
 	}
 }
